@@ -21,6 +21,9 @@ def main():
     if a.prop == 'selftest':
         from . import selftest
         sys.exit(selftest.main(a.tier))
+    if a.prop == 'meta':
+        from . import meta
+        sys.exit(meta.main())
     mod = importlib.import_module(f'checks.{a.prop.lower()}')
     if a.replay:
         with open(a.replay) as f:
